@@ -45,5 +45,5 @@ Extraction "sbmodel.ml"
   interp_rgb rgbw_reference buf_init buf_init_from_bytes buf_init_view buf_resize buf_clear buf_prune buf_fill
   buf_append buf_extend_zeros bf_size
   (* C13 C14 C15 C18 *)
-  propose_takeoff propose_landing poly_max poly_min first_root root_boxes merge_boxes sign_change cauchy_bound
+  propose_takeoff propose_landing propose_landing_spec poly_max poly_min first_root root_boxes merge_boxes sign_change cauchy_bound
   shift_poly qeval irange zpoly.
